@@ -4,7 +4,7 @@
         (numbers by value: integers exactly, doubles through the correctly rounded dec2f64).
    302/303: the number / text base models against Go's reference libraries and the implementation's leaf encoders. *)
 From Coq Require Import ZArith List Bool.
-From DG Require Import CaseFormat ProtoWireRef ThriftWire Json Num Base64 T2J.
+From DG Require Import CaseFormat ProtoWireRef ThriftWire Json Num Base64 T2J T2JUnset.
 Import ListNotations.
 Local Open Scope Z_scope.
 
@@ -146,7 +146,7 @@ Definition check_301 (fs : list field) : verdict :=
       | Some v =>
         if negb (wf v && conforms v d) then VSkip else
         if ec =? 3 then VBad 8 [] else
-        let '(res, bv) := t2j_spec o d v in
+        let '(res, bv) := t2j_specw o d v in
         match res with
         | TOk e => vand (judge_doc e ec 0 out prefix_ok) (if ec =? 0 then check_base o bv brest else VOk)
         | TExc e => judge_doc e ec 2 out 1
